@@ -6,7 +6,9 @@ set -u
 d="$1"; race="${2:-}"
 w=/tmp/mut/confirm
 export GOFLAGS=-mod=mod GOPROXY=off GOSUMDB=off GOTOOLCHAIN=local
+[ -d $w ] || { mkdir -p /tmp/mut; git -C /repo worktree prune; git -C /repo worktree add -q --detach $w HEAD || exit 2; }
 cd $w || exit 2
+git checkout -q --detach $(git -C /repo rev-parse HEAD)
 git checkout -q -- . ; git clean -fdq
 name=$(grep -o 'func Test[A-Za-z0-9_]*' "$d/demo_test.go" | head -1 | sed 's/func //')
 cp "$d/demo_test.go" $w/zz_demo_test.go
